@@ -198,7 +198,7 @@ func TestCheck(t *testing.T) {
 			"the reference (own reflect walker for path get/set, overlap predicate, canonical rendering) is written from the property statement",
 			"where no value exists at a source path (absent map key, nil pointer or nil interface on the way) an error and 'target left unset' are both accepted, a panic is not",
 			"an untyped nil reaching a typed nillable position may be refused with an error",
-			"stream runs are compared chunk-wise (one target chunk per source chunk and predecessor, one for the static values), not through the framework's concat of user types; "+
+			"stream runs are compared chunk-wise (one target chunk per source chunk and predecessor, one for the static values), not through the framework's concat of user types; " +
 				"a successor with the Invoke form only (and END under Collect) must receive the Invoke value when every predecessor emits its output as one chunk",
 			"two target paths overlap when they denote the same or nested positions of the input value, however the fields are spelled (promoted name / through the embedded field)",
 			"instantiated but empty containers (pointer to a zero struct, empty map) count as zero-valued",
@@ -489,6 +489,12 @@ func runCase(ctx context.Context, rep *mon.Reporter, rng *mon.Rand, c *Case, idx
 			}
 			if assembled {
 				rep.Count("stream_runs_in_which_one_input_value_is_assembled", 1)
+				for i := range expS.Chunks {
+					expS.Chunks[i] = emptyForNilMaps(expS.Chunks[i])
+				}
+				for i := range out.Chunks {
+					out.Chunks[i] = emptyForNilMaps(out.Chunks[i])
+				}
 				if out.Kind == "error" && invOut.Kind == "value" && !expS.Must && c.concatOfInputTypeNeeded(parts) {
 					concatFailed = true
 					// Invoke delivers the value; the streaming run cannot put the partial structs together
@@ -548,13 +554,17 @@ func runCase(ctx context.Context, rep *mon.Reporter, rng *mon.Rand, c *Case, idx
 				merged, cf = mergeTrees(merged, ch)
 				conflict = conflict || cf
 			}
+			inv := invOut.Chunks[0]
+			if c.SuccInv {
+				inv = emptyForNilMaps(inv) // the streaming value was assembled by the framework: see emptyForNilMaps
+			}
 			if merged != nil {
 				rep.Count("invoke_stream_compared", 1)
-				if conflict || merged.String() != invOut.Chunks[0].String() {
+				if conflict || merged.String() != inv.String() {
 					// containers that a chunk instantiated without content do not count as a difference
-					if !(invOut.Chunks[0].empty() && merged.empty()) {
-						rep.Violation("C15/invoke-stream-differ/"+c.diffClass(invOut.Chunks[0], merged, c.attribute("stream", nil, nil)),
-							fmt.Sprintf("successor input under Invoke: %s\noverlay of the chunks under Stream: %s (conflict=%v)", invOut.Chunks[0], merged, conflict),
+					if !(inv.empty() && merged.empty()) {
+						rep.Violation("C15/invoke-stream-differ/"+c.diffClass(inv, merged, c.attribute("stream", nil, nil)),
+							fmt.Sprintf("successor input under Invoke: %s\noverlay of the chunks under Stream: %s (conflict=%v)", inv, merged, conflict),
 							c.witness(ordStr, ""))
 					}
 				}
@@ -912,16 +922,36 @@ func (c *Case) consequences(ctx context.Context, b *built, before *snapshot) str
 // modeDiffClass names an Invoke/Stream difference on an input for which no value is due: an absent
 // map key has one name wherever on the source path it is met.
 func modeDiffClass(e *expectation) string {
-	absent := true
+	// of everything the reference can find on a source path an absent key is the one thing that a single
+	// stream chunk may legitimately show: it decides the name whatever else was found in the same run
 	for k := range e.All {
-		if !strings.Contains(k, "absent-map-key") && !strings.Contains(k, "map-without-the-key") {
-			absent = false
+		if strings.Contains(k, "absent-map-key") || strings.Contains(k, "map-without-the-key") {
+			return "absent-source-map-key"
 		}
 	}
-	if absent && len(e.All) > 0 {
-		return "absent-source-map-key"
-	}
 	return e.Class
+}
+
+// emptyForNilMaps: the same tree with every empty map shown as a nil one (nil and empty maps look alike). A
+// value that the framework assembles from stream chunks went through its generic concat of maps, which
+// rebuilds every map it meets (a typed nil map comes out empty); that function is not the subject of this check.
+func emptyForNilMaps(t *tree) *tree {
+	if t == nil {
+		return nil
+	}
+	c := *t
+	if t.K == "map" && !t.Nil && len(t.Kids) == 0 {
+		c.Nil, c.Kids = true, nil
+		return &c
+	}
+	if t.Kids != nil {
+		c.Kids = make(map[string]*tree, len(t.Kids))
+		for k, v := range t.Kids {
+			c.Kids[k] = emptyForNilMaps(v)
+		}
+	}
+	c.Elem = emptyForNilMaps(t.Elem)
+	return &c
 }
 
 // concatOfInputTypeNeeded: in a streaming run the mapped values of every predecessor that ran (one chunk
